@@ -430,5 +430,278 @@ int main(int argc, char** argv)
 	return 2;
 }
 
-int cvcMain(int argc, char** argv) { (void)argc; (void)argv; return 2; }
+/* =========================================================================== CV certificates */
+#include <bee2/crypto/bash.h>
+
+typedef struct { size_t len; octet priv[64]; octet pub[128]; bign_params params[1]; } kp_t;
+static void genFn(void* buf, size_t count, void* st) { (void)st; vxRandBuf(buf, count); }
+static err_t kpStd(bign_params* p, size_t len)
+{
+	return len == 24 ? bign96ParamsStd(p, "1.2.112.0.2.0.34.101.45.3.0") :
+		bignParamsStd(p, len == 32 ? "1.2.112.0.2.0.34.101.45.3.1" : len == 48 ? "1.2.112.0.2.0.34.101.45.3.2" : "1.2.112.0.2.0.34.101.45.3.3");
+}
+static void kpGen(kp_t* k, size_t len)
+{
+	err_t rc;
+	memset(k, 0, sizeof *k); k->len = len;
+	rc = kpStd(k->params, len);
+	if (rc == ERR_OK) rc = len == 24 ? bign96KeypairGen(k->priv, k->pub, k->params, genFn, 0) : bignKeypairGen(k->priv, k->pub, k->params, genFn, 0);
+	if (rc != ERR_OK) { fprintf(stderr, "driver: key generation failed (%s)\n", errName(rc)); exit(3); }
+}
+static err_t pubVal(const kp_t* k, const octet* pub) { return k->len == 24 ? bign96PubkeyVal(k->params, pub) : bignPubkeyVal(k->params, pub); }
+
+/* the attacker's signing tool: signature of body under key k as a CV certificate carries it
+   (belt-hash for l = 96, 128; bash384 / bash512 for l = 192, 256; deterministic bign signature) */
+static size_t forgeSig(octet sig[96], const octet* body, size_t n, const kp_t* k)
+{
+	octet hash[64], oid[16]; size_t oid_len = sizeof oid; err_t rc;
+	if (k->len <= 32)
+	{
+		octet h[32]; beltHash(h, body, n); memcpy(hash, h, k->len);
+		rc = bignOidToDER(oid, &oid_len, "1.2.112.0.2.0.34.101.31.81");
+	}
+	else
+	{
+		bashHash(hash, k->len * 4, body, n);
+		rc = bignOidToDER(oid, &oid_len, k->len == 48 ? "1.2.112.0.2.0.34.101.77.12" : "1.2.112.0.2.0.34.101.77.13");
+	}
+	if (rc == ERR_OK)
+		rc = k->len == 24 ? bign96Sign2(sig, k->params, oid, oid_len, hash, k->priv, 0, 0) : bignSign2(sig, k->params, oid, oid_len, hash, k->priv, 0, 0);
+	if (rc != ERR_OK) { fprintf(stderr, "driver: forging tool failed (%s)\n", errName(rc)); exit(3); }
+	return k->len == 24 ? 34 : k->len + k->len / 2;
+}
+/* TLV reading for the forging tool (tags of 1 or 2 octets, definite lengths up to 2 length octets) */
+static int tlvRead(const octet* p, size_t n, size_t* hl, size_t* vl)
+{
+	size_t t = (p[0] & 0x1F) == 0x1F ? 2 : 1, l;
+	if (n < t + 1) return 0;
+	if (p[t] < 0x80) { l = p[t]; *hl = t + 1; }
+	else if (p[t] == 0x81) { if (n < t + 2) return 0; l = p[t + 1]; *hl = t + 2; }
+	else if (p[t] == 0x82) { if (n < t + 3) return 0; l = p[t + 1] * 256u + p[t + 2]; *hl = t + 3; }
+	else return 0;
+	*vl = l;
+	return *hl + l <= n;
+}
+static size_t derLenEnc(octet* out, size_t l)
+{
+	if (l < 128) { out[0] = (octet)l; return 1; }
+	if (l < 256) { out[0] = 0x81; out[1] = (octet)l; return 2; }
+	out[0] = 0x82; out[1] = (octet)(l >> 8); out[2] = (octet)l; return 3;
+}
+/* offsets (inside cert) of the body and of the values of authority, pubkey, holder, from, until */
+typedef struct { size_t body, body_len, auth, auth_len, pk, pk_len, hold, hold_len, from, until; } cvc_map;
+static int cvcMap(cvc_map* m, const octet* cert, size_t n)
+{
+	size_t hl, vl, off, end;
+	memset(m, 0, sizeof *m);
+	if (n < 4 || cert[0] != 0x7F || cert[1] != 0x21 || !tlvRead(cert, n, &hl, &vl)) return 0;
+	m->body = hl;
+	if (cert[hl] != 0x7F || cert[hl + 1] != 0x4E || !tlvRead(cert + hl, n - hl, &off, &vl)) return 0;
+	m->body_len = off + vl; end = hl + off + vl; off += hl;
+	while (off < end)
+	{
+		size_t h2, v2;
+		if (!tlvRead(cert + off, end - off, &h2, &v2)) return 0;
+		if (cert[off] == 0x42) m->auth = off + h2, m->auth_len = v2;
+		else if (cert[off] == 0x5F && cert[off + 1] == 0x20) m->hold = off + h2, m->hold_len = v2;
+		else if (cert[off] == 0x5F && cert[off + 1] == 0x25) m->from = off + h2;
+		else if (cert[off] == 0x5F && cert[off + 1] == 0x24) m->until = off + h2;
+		else if (cert[off] == 0x7F && cert[off + 1] == 0x49)
+		{
+			size_t o2 = off + h2, h3, v3;
+			if (!tlvRead(cert + o2, end - o2, &h3, &v3)) return 0;      /* OID */
+			o2 += h3 + v3;
+			if (!tlvRead(cert + o2, end - o2, &h3, &v3)) return 0;      /* BIT STRING */
+			m->pk = o2 + h3 + 1; m->pk_len = v3 - 1;
+		}
+		off += h2 + v2;
+	}
+	return m->auth && m->hold && m->from && m->until && m->pk;
+}
+
+typedef struct
+{
+	size_t L; octet a[16], h[16]; size_t al, hl; octet f[6], u[6], e[5], s[2];
+	int pk; char sg;
+	kp_t key;             /* the key pair of this level */
+	btok_cvc_t c[1];      /* the content as submitted */
+	octet* cert; size_t cert_len;   /* the certificate (issued or forged), 0 if none */
+	int have;
+} cvc_lvl;
+
+static void callRes(long id, const char* fn, int lvl, err_t rc, int same)
+{
+	jBegin(); jStr("e", "Call"); jInt("id", id); jStr("fn", fn); jInt("lvl", lvl); jStr("rc", errName(rc));
+	if (same >= 0) jBool("same", same);
+	jEnd();
+}
+static void setName(char dst[13], const octet* src, size_t n) { memset(dst, 0, 13); memcpy(dst, src, n < 12 ? n : 12); }
+static int sameContent(const btok_cvc_t* x, const btok_cvc_t* y)
+{
+	return strcmp(x->authority, y->authority) == 0 && strcmp(x->holder, y->holder) == 0 && x->pubkey_len == y->pubkey_len &&
+		memcmp(x->pubkey, y->pubkey, x->pubkey_len) == 0 && memcmp(x->from, y->from, 6) == 0 && memcmp(x->until, y->until, 6) == 0 &&
+		memcmp(x->hat_eid, y->hat_eid, 5) == 0 && memcmp(x->hat_esign, y->hat_esign, 2) == 0;
+}
+/* certificate over the content lv->c signed by k, whatever the content is worth (same-length patching of a valid
+   certificate, then re-signing); 0 if the content cannot be carried by a well-formed certificate */
+static int forgeCert(cvc_lvl* lv, const kp_t* k)
+{
+	btok_cvc_t ph[1]; size_t n = 0, i, sl, bl; octet* tmp; octet sig[96]; cvc_map m; octet lenb[4], lens[4]; size_t ll, ls; octet* out;
+	if (lv->al < 8 || lv->al > 12 || lv->hl < 8 || lv->hl > 12 || lv->pk == 2) return 0;
+	memcpy(ph, lv->c, sizeof ph);
+	for (i = 0; i < lv->al; ++i) ph->authority[i] = 'A';
+	for (i = 0; i < lv->hl; ++i) ph->holder[i] = 'B';
+	memcpy(ph->from, "\x02\x00\x00\x01\x00\x01", 6); memcpy(ph->until, "\x03\x09\x01\x02\x03\x01", 6);
+	memcpy(ph->pubkey, lv->key.pub, 2 * lv->L); ph->pubkey_len = 2 * lv->L;
+	if (btokCVCWrap(0, &n, ph, k->priv, k->len) != ERR_OK) return 0;
+	tmp = (octet*)xalloc(n);
+	if (btokCVCWrap(tmp, &n, ph, k->priv, k->len) != ERR_OK || !cvcMap(&m, tmp, n) || m.auth_len != lv->al || m.hold_len != lv->hl || m.pk_len != 2 * lv->L)
+	{ free(tmp); return 0; }
+	memcpy(tmp + m.auth, lv->a, lv->al); memcpy(tmp + m.hold, lv->h, lv->hl);
+	memcpy(tmp + m.from, lv->f, 6); memcpy(tmp + m.until, lv->u, 6);
+	memcpy(tmp + m.pk, lv->c->pubkey, 2 * lv->L);
+	bl = m.body_len;
+	sl = forgeSig(sig, tmp + m.body, bl, k);
+	ls = derLenEnc(lens, sl); ll = derLenEnc(lenb, bl + 2 + ls + sl);
+	free(lv->cert); lv->cert_len = 2 + ll + bl + 2 + ls + sl; lv->cert = out = (octet*)xalloc(lv->cert_len);
+	out[0] = 0x7F; out[1] = 0x21; memcpy(out + 2, lenb, ll); memcpy(out + 2 + ll, tmp + m.body, bl);
+	out[2 + ll + bl] = 0x5F; out[3 + ll + bl] = 0x37; memcpy(out + 4 + ll + bl, lens, ls); memcpy(out + 4 + ll + bl + ls, sig, sl);
+	free(tmp);
+	return 1;
+}
+
+static void cvcCase(vx_cmd* c)
+{
+	long id = (long)vxInt(c, "id", 0); int n = (int)vxInt(c, "n", 1), i;
+	static cvc_lvl lv[3]; kp_t wrong, other; size_t dl = 0; octet* date = vxHex(c, "date", &dl);
+	char k[8];
+	for (i = 0; i < n; ++i)
+	{
+		cvc_lvl* v = lv + i; size_t t; octet* x;
+		free(v->cert); memset(v, 0, sizeof *v);
+#define ARG(nm) (sprintf(k, nm "%d", i), k)
+		v->L = (size_t)vxInt(c, ARG("L"), 32);
+		x = vxHex(c, ARG("a"), &v->al); memcpy(v->a, x, v->al > 16 ? 16 : v->al); free(x);
+		x = vxHex(c, ARG("h"), &v->hl); memcpy(v->h, x, v->hl > 16 ? 16 : v->hl); free(x);
+		x = vxHex(c, ARG("f"), &t); memcpy(v->f, x, 6); free(x);
+		x = vxHex(c, ARG("u"), &t); memcpy(v->u, x, 6); free(x);
+		x = vxHex(c, ARG("e"), &t); memcpy(v->e, x, 5); free(x);
+		x = vxHex(c, ARG("s"), &t); memcpy(v->s, x, 2); free(x);
+		v->pk = (int)vxInt(c, ARG("pk"), 0);
+		v->sg = vxArg(c, ARG("sg")) ? vxArg(c, ARG("sg"))[0] : 'p';
+		kpGen(&v->key, v->L);
+		setName(v->c->authority, v->a, v->al); setName(v->c->holder, v->h, v->hl);
+		memcpy(v->c->from, v->f, 6); memcpy(v->c->until, v->u, 6); memcpy(v->c->hat_eid, v->e, 5); memcpy(v->c->hat_esign, v->s, 2);
+		memcpy(v->c->pubkey, v->key.pub, 2 * v->L); v->c->pubkey_len = 2 * v->L;
+		if (v->pk == 1)        /* off the curve */
+			do v->c->pubkey[vxRandN(2 * v->L)] ^= (octet)(1 << vxRandN(8)); while (pubVal(&v->key, v->c->pubkey) == ERR_OK);
+		else if (v->pk == 2) v->c->pubkey_len = 50;
+	}
+	for (i = 0; i < n; ++i)
+	{
+		cvc_lvl* v = lv + i; cvc_lvl* is = i ? lv + i - 1 : v;     /* issuer level (the root signs itself) */
+		const kp_t* sk = &is->key; err_t rc; size_t len = 0; btok_cvc_t got[1]; int leaf = i == n - 1;
+		if (v->sg == 'w') { kpGen(&wrong, is->L); sk = &wrong; }
+		else if (v->sg == 'o') { kpGen(&other, is->L == 32 ? 48 : 32); sk = &other; }
+		callRes(id, "Check", i, btokCVCCheck(v->c), -1);
+		if (i) callRes(id, "Check2", i, btokCVCCheck2(v->c, is->c), -1);
+		/* issue */
+		{
+			btok_cvc_t w[1]; memcpy(w, v->c, sizeof w);
+			if (i == 0)
+			{
+				if (v->pk == 0) w->pubkey_len = 0;          /* the public key is derived from the private one */
+				rc = btokCVCWrap(0, &len, w, sk->priv, sk->len);
+				if (rc == ERR_OK) { v->cert = (octet*)xalloc(len); memcpy(w, v->c, sizeof w); if (v->pk == 0) w->pubkey_len = 0; rc = btokCVCWrap(v->cert, &v->cert_len, w, sk->priv, sk->len); }
+				callRes(id, "Wrap", i, rc, rc == ERR_OK ? (v->cert_len == len && sameContent(w, v->c)) : -1);
+			}
+			else if (is->cert)
+			{
+				rc = btokCVCIss(0, &len, w, is->cert, is->cert_len, sk->priv, sk->len);
+				if (rc == ERR_OK) { v->cert = (octet*)xalloc(len); memcpy(w, v->c, sizeof w); rc = btokCVCIss(v->cert, &v->cert_len, w, is->cert, is->cert_len, sk->priv, sk->len); }
+				callRes(id, "Iss", i, rc, rc == ERR_OK ? v->cert_len == len : -1);
+			}
+			else rc = ERR_BAD_INPUT;
+			if (rc != ERR_OK) { free(v->cert); v->cert = 0; v->cert_len = 0; if (!forgeCert(v, sk)) continue; }
+		}
+		rc = btokCVCUnwrap(got, v->cert, v->cert_len, 0, 0);
+		callRes(id, "Unwrap0", i, rc, rc == ERR_OK ? sameContent(got, v->c) && got->sig_len != 0 : -1);
+		rc = btokCVCUnwrap(got, v->cert, v->cert_len, is->c->pubkey, is->c->pubkey_len);
+		callRes(id, "UnwrapK", i, rc, rc == ERR_OK ? sameContent(got, v->c) : -1);
+		if (i && is->cert)
+			callRes(id, "Val", i, btokCVCVal(v->cert, v->cert_len, is->cert, is->cert_len, leaf && date ? date : 0), -1);
+		if (i)
+		{
+			rc = btokCVCVal2(got, v->cert, v->cert_len, is->c, leaf && date ? date : 0);
+			callRes(id, "Val2", i, rc, rc == ERR_OK ? sameContent(got, v->c) : -1);
+		}
+		callRes(id, "Match", i, btokCVCMatch(v->cert, v->cert_len, v->key.priv, v->L), -1);
+		kpGen(&wrong, v->L);
+		callRes(id, "MatchX", i, btokCVCMatch(v->cert, v->cert_len, wrong.priv, v->L), -1);
+		{ size_t cl = btokCVCLen(v->cert, v->cert_len); callRes(id, "Len", i, cl == v->cert_len ? ERR_OK : ERR_BAD_FORMAT, -1); }
+	}
+	free(date);
+}
+
+int cvcMain(int argc, char** argv)
+{
+	const char* mode = argv[1];
+	vxSeed(vxEnvSeed());
+	if (strcmp(mode, "cvc_replay") == 0)
+	{
+		static char line[1 << 16]; vx_cmd c;
+		while (fgets(line, sizeof line, stdin))
+			if (vxParse(&c, line)) cvcCase(&c);
+	}
+	else if (strcmp(mode, "cvc_alter") == 0)
+	{
+		/* every single-octet alteration of a signed certificate (issued by a root of the same key length):
+		   Unwrap without a key, Unwrap / Val / Val2 with the issuer's key */
+		int thorough = argc > 2 && strcmp(argv[2], "thorough") == 0;
+		static const size_t Ls[] = {32, 24, 48, 64}; size_t li, pos; int rep, reps = thorough ? 3 : 1;
+		for (li = 0; li < 4; ++li) for (rep = 0; rep < reps; ++rep)
+		{
+			kp_t root, leaf; btok_cvc_t c0[1], c1[1], got[1]; octet* cert0; octet* cert1; size_t n0 = 0, n1 = 0;
+			kpGen(&root, Ls[li]); kpGen(&leaf, Ls[(li + (size_t)rep) % 4]);
+			memset(c0, 0, sizeof c0); memset(c1, 0, sizeof c1);
+			strcpy(c0->authority, "BYCA0000"); strcpy(c0->holder, "BYCA0000");
+			memcpy(c0->from, "\x02\x00\x00\x01\x00\x01", 6); memcpy(c0->until, "\x03\x09\x01\x02\x03\x01", 6);
+			strcpy(c1->authority, "BYCA0000"); strcpy(c1->holder, rep == 1 ? "590082394654" : "BYCA1000");
+			memcpy(c1->from, "\x02\x01\x00\x06\x00\x01", 6); memcpy(c1->until, "\x03\x00\x01\x02\x03\x01", 6);
+			if (rep != 2) { memset(c1->hat_eid, 0xDD, 5); memset(c1->hat_esign, 0x33, 2); }
+			memcpy(c1->pubkey, leaf.pub, 2 * leaf.len); c1->pubkey_len = 2 * leaf.len;
+			if (btokCVCWrap(0, &n0, c0, root.priv, root.len) != ERR_OK) return 3;
+			cert0 = (octet*)xalloc(n0); c0->pubkey_len = 0; btokCVCWrap(cert0, &n0, c0, root.priv, root.len);
+			if (btokCVCIss(0, &n1, c1, cert0, n0, root.priv, root.len) != ERR_OK) return 3;
+			cert1 = (octet*)xalloc(n1); btokCVCIss(cert1, &n1, c1, cert0, n0, root.priv, root.len);
+			for (pos = 0; pos <= n1; ++pos)      /* pos = n1: the unaltered certificate */
+			{
+				int mask = 1 << vxRandN(8); err_t r0, rk, rv, rv2; octet* x = (octet*)xalloc(n1);
+				memcpy(x, cert1, n1); if (pos < n1) x[pos] ^= (octet)mask; else mask = 0;
+				r0 = btokCVCUnwrap(got, x, n1, 0, 0);
+				jBegin(); jStr("e", "Op"); jStr("op", "cvcAlt"); jInt("L", (long long)root.len); jInt("pos", (long long)pos + 1); jInt("mask", mask);
+				jOct("cert", x, n1); jOct("orig", cert1, n1); jStr("rc0", errName(r0));
+				if (r0 == ERR_OK)
+				{
+					jSep(); fprintf(vx_out, "\"got\":{"); vx_first = 1;
+					jOct("authority", got->authority, strlen(got->authority)); jOct("holder", got->holder, strlen(got->holder));
+					jOct("pubkey", got->pubkey, got->pubkey_len); jOct("from", got->from, 6); jOct("until", got->until, 6);
+					jOct("hat_eid", got->hat_eid, 5); jOct("hat_esign", got->hat_esign, 2);
+					fputc('}', vx_out); vx_first = 0;
+					jOct("sig", got->sig, got->sig_len);
+				}
+				rk = btokCVCUnwrap(got, x, n1, c0->pubkey, c0->pubkey_len);
+				rv = btokCVCVal(x, n1, cert0, n0, 0);
+				rv2 = btokCVCVal2(0, x, n1, c0, 0);
+				jStr("rck", errName(rk)); jStr("rcv", errName(rv)); jStr("rcv2", errName(rv2)); jEnd();
+				free(x);
+			}
+			free(cert0); free(cert1);
+		}
+	}
+	else return 2;
+	fflush(stdout);
+	return 0;
+}
+
 int bpkiMain(int argc, char** argv) { (void)argc; (void)argv; return 2; }
